@@ -57,6 +57,10 @@ def cfg_term(c):
 
 def op_term(op, new, pre_state, effs=(), cfgs=(), skipped=False):
     k = op[0]
+    if k == 'restart':
+        nnew = len([e for e in effs if e.startswith('ERegroup')])
+        return '(GRestart %s %s)' % (coq_list([cfg_term(c) for c in cfgs[len(cfgs) - nnew:]]) if nnew else '[]',
+                                     coq_list([zlit(v) for v in new]))
     if k in ('remove', 'add'):
         if list(effs) == ['EInapplicable']:
             return '(GRemove 999 0)'            # not applicable: no such group / name in use
@@ -148,6 +152,17 @@ class Monitor(object):
         if op[0] == 'add' and effs != ['EInapplicable']:
             self._grow()
             cls = ev.ProcessGroupAddedEvent
+        if op[0] == 'restart':
+            # a new daemon life: the pools of the previous life are gone, the new ones are the only groups
+            old_n = len(self.member)
+            for k in range(old_n):
+                self.member[k] = False
+            self._grow()
+            got = sorted(int(e.split()[1]) for e in effs if e.startswith('EOffered'))
+            stale = [k for k in got if k < old_n]
+            if stale:
+                return 'pools %r of the previous daemon life were offered an event of the new life' % sorted(set(stale))
+            n = self.n = len(self.cfgs)
         if op[0] == 'emit':
             cls = getattr(ev, op[1])
         n = self.n = len(self.cfgs)
@@ -188,6 +203,18 @@ class Monitor(object):
                         if v2 != vid and v2 in order and vid in order and \
                                 (order.index(v2) < order.index(vid)) != (p2 < pser):
                             return 'pool %d: poolserials of events %d and %d do not follow acceptance order' % (pi, v2, vid)
+        # ---- a listener that dies holding an event (in whatever process state: RUNNING, STOPPING after a stop
+        #      request, UNKNOWN) gives it back: slot empty afterwards, EventRejectedEvent notified
+        if op[0] == 'finish' and effs != ['EInapplicable'] and op[1] < len(pre) and op[2] < len(pre[op[1]][2]):
+            held = pre[op[1]][2][op[2]][2]
+            after = post[op[1]][2][op[2]][2]
+            if after is not None:
+                return 'listener %d/%d died (process state %s) and still holds event %r: it was not returned to its pool' % (
+                    op[1], op[2], pre[op[1]][2][op[2]][0], after)
+        # ---- a full stdin pipe (EAGAIN) is not a write error: the listener takes the event and goes BUSY
+        if op[0] in ('dispatch', 'transition') and any(x.startswith('EWriteError') for x in effs):
+            if not any(w[0] == 'err' for ws in op[2] for w in ws):
+                return 'a write to a listener was treated as failed although the pipe only was full or broken (EAGAIN/EPIPE)'
         if op[0] == 'finish' and any(x.startswith('ERaise') for x in effs):
             return 'an exception escaped from finish() of a listener'
         if self.w.discard_log_mismatch:
@@ -234,17 +261,19 @@ class Monitor(object):
         return None
 
 
-def run_history(cfgs, ops, hk, gserial, maxdig):
+def run_history(cfgs, ops, hk, gserial, maxdig, strip=False):
     """-> (coq case, monitor verdict, trace info)"""
     import c09_drive as drv
     from c10_env import ProcessStates
     cfgs = list(cfgs)            # grows when a pool is added
     cfgs0 = list(cfgs)
-    w = drv.World(cfgs, hk, gserial)
+    w = drv.World(cfgs, hk, gserial, strip)
     mon = Monitor(w, cfgs, check_serials=(gserial == -1 and all(c[3] == -1 for c in cfgs)))
     opterms, exp = [], []
     verdict = None
     kinds = []
+    sent = {}          # (pool, listener) -> serials of the envelopes sent to the current incarnation
+    tainted = set()    # incarnations that saw a write error other than EAGAIN/EPIPE (envelope may stay buffered)
     for k, op in enumerate(ops):
         pre = w.raw()
         pre_state = None
@@ -259,6 +288,30 @@ def run_history(cfgs, ops, hk, gserial, maxdig):
         exp.append('(%s, %s)' % (w.obs(), coq_list(effs)))
         post = w.raw()
         kinds.append((op[0], tuple(e.split()[0] for e in effs)))
+        # ---- what a listener finds on its stdin is exactly the envelopes sent to it, each serial once, in order
+        if op[0] == 'spawn' and effs != ['EInapplicable']:
+            sent[(op[1], op[2])] = []
+            tainted.discard((op[1], op[2]))
+        for e in effs:
+            if e.startswith('ESent'):
+                f = e.replace('%Z', '').split()
+                sent.setdefault((int(f[1]), int(f[2])), []).append(int(f[4]))
+            elif e.startswith('EWriteError'):
+                for i in range(len(w.pools[int(e.split()[1])].procs)):
+                    tainted.add((int(e.split()[1]), i))
+        if verdict is None:
+            for pi, pool in enumerate(w.pools):
+                for i, p in enumerate(pool.procs):
+                    pipe, si = pool.pipe(p), pool.stdin_disp(p)
+                    if pipe is None or (pi, i) in tainted:
+                        continue
+                    got = drv.parse_envelopes(pipe.accepted + (si.input_buffer if si is not None and not pipe.broken else b''))
+                    want = sent.get((pi, i), [])
+                    ser = [x[0] for x in got] if got is not None else None
+                    if ser is None or (ser != want if (si is not None and not pipe.broken) else ser != want[:len(ser)]):
+                        verdict = {'step': k, 'operation': _js([op])[0],
+                                   'broken': 'stdin of listener %d/%d carries the envelopes with serials %r, the events sent '
+                                             'to it have serials %r' % (pi, i, ser, want)}
         if verdict is None:
             why = mon.step(op, pre, post, effs)
             if why is not None:
@@ -302,9 +355,11 @@ def _run(chk, wd, proved):
     cases, meta, distinct = [], [], set()
     nviol = [0]
 
-    def add(cfgs, ops, hk=0, gserial=-1, tag=''):
-        case, verdict, kinds = run_history(cfgs, ops, hk, gserial, maxdig)
-        m = {'family': tag, 'pools': [list(c) for c in cfgs], 'handler': hk, 'gserial': gserial, 'ops': _js(ops)}
+    def add(cfgs, ops, hk=0, gserial=-1, tag='', strip=False):
+        case, verdict, kinds = run_history(cfgs, ops, hk, gserial, maxdig, strip)
+        m = {'family': tag, 'pools': [list(c) for c in cfgs], 'handler': hk, 'gserial': gserial, 'strip_ansi': strip,
+             'ops': _js(ops)}
+        add.last_kinds = kinds
         cases.append(case)
         meta.append(m)
         for kd in kinds:
@@ -414,6 +469,43 @@ def _run(chk, wd, proved):
                 chk.dist('groups:' + pname)
     n_groups = len(cases) - n_g0
 
+    # ---- a new daemon life through the real Supervisor.run(): pools of life 1, restart, pools of life 2
+    #      (new objects from the same configuration): events of life 2 reach life-2 pools only
+    for cfgs in g_cfgs:
+        n0 = len(cfgs)
+        for pre in ([], ready_setup(cfgs), ready_setup(cfgs) + [['emit', 'Tick5Event'], ['transition', 0, []]]):
+            ops = pre + emits[:2] + [['restart']] + emits + \
+                [['spawn', n0, 0, 800], ['running', n0, 0], ['feed', n0, 0, b'READY\n'], ['transition', n0, []],
+                 ['emit', 'Tick5Event'], ['remove', n0 + 1], ['emit', 'ProcessStateRunningEvent'], ['restart'], ['emit', 'Tick5Event'],
+                 ['emit', 'ProcessGroupAddedEvent']]
+            add(cfgs, ops, tag='restart')
+            chk.dist('restart')
+
+    # ---- options.strip_ansi must not influence what happens to an event: the same history with the flag
+    #      off and on (escape sequences inside result lines and bodies) must have the same effects
+    ansi_feeds = [b'RESULT 2\n\x1b[0mOK', b'RESULT 6\nO\x1b[1mK', b'RESULT 2\x1b[K\nOK', b'RES\x1b[mULT 2\nOK',
+                  b'RESULT 7\n\x1b[31mOK', b'RESULT 2\nOK\x1b[0m', b'\x1b[1mRESULT 2\nOK', b'RESULT 4\nFA\x1b[', b'IL']
+    ansi_cfg = [(['Event'], 3, 1, -1, 999, None), (['TickEvent'], 2, 1, -1, 999, None)]
+    for f1 in ansi_feeds:
+        for f2 in (b'READY\n', b'RE\x1b[1mADY\n', b'\x1b[0mREADY\n'):
+            ops = ready_setup(ansi_cfg) + [['emit', 'Tick5Event'], ['emit', 'Tick60Event'], ['transition', 0, []],
+                                           ['transition', 1, []], ['feed', 0, 0, f1], ['feed', 1, 0, f1],
+                                           ['feed', 0, 0, f2], ['transition', 0, []], ['transition', 1, []],
+                                           ['feed', 0, 0, b'RESULT 2\nOK'], ['finish', 1, 0, b'', B]]
+            add(ansi_cfg, ops, tag='ansi', strip=False)
+            plain = add.last_kinds
+            add(ansi_cfg, ops, tag='ansi', strip=True)
+            chk.dist('ansi', 2)
+            if add.last_kinds != plain and nviol[0] < 12:
+                nviol[0] += 1
+                step = [i for i, (a, b) in enumerate(zip(plain, add.last_kinds)) if a != b][0]
+                chk.violation({'kind': 'the fate of an event depends on options.strip_ansi',
+                               'case': meta[-1], 'first_difference_at_step': step, 'operation': _js([ops[step]])[0],
+                               'effects_with_strip_ansi_false': list(plain[step][1]),
+                               'effects_with_strip_ansi_true': list(add.last_kinds[step][1]),
+                               'explanation': 'whether a listener\'s answer accepts or rejects its event must be a function of '
+                                              'the raw bytes it wrote; escape stripping is for the child log only'})
+
     # ---- random histories
     def rand_cfgs():
         n = rng.choice([1, 2, 2, 3])
@@ -429,7 +521,9 @@ def _run(chk, wd, proved):
             pi = rng.randrange(len(cfgs))
             i = rng.randrange(cfgs[pi][2])
             r = rng.random()
-            if r < 0.06:
+            if r < 0.012:
+                ops.append(['restart'])
+            elif r < 0.06:
                 # process groups: removal (after stopping everything, or as it is) and adding again
                 k = rng.random()
                 if k < 0.4:
@@ -469,7 +563,7 @@ def _run(chk, wd, proved):
     nrand = 500 if quick else 8000
     for _ in range(nrand):
         cfgs = rand_cfgs()
-        add(cfgs, rand_ops(cfgs, rng.randrange(5, 22)), hk=rng.choice([0, 0, 1]), tag='rand')
+        add(cfgs, rand_ops(cfgs, rng.randrange(5, 22)), hk=rng.choice([0, 0, 1]), tag='rand', strip=rng.random() < 0.4)
     # ---- serial wrap at maxint (GlobalSerial and pool serial start just below it)
     for _ in range(40 if quick else 400):
         cfgs = [(c[0], c[1], c[2], sys.maxsize - rng.randrange(0, 3), c[4], c[5]) for c in rand_cfgs()]
@@ -605,7 +699,7 @@ def replay(chk, path):
         maxdig = sys.get_int_max_str_digits() if hasattr(sys, 'get_int_max_str_digits') else 0
         cfgs = [tuple(c) for c in m['pools']]
         with vlib.WorkDir('c09r') as wd:
-            case, verdict, kinds = run_history(cfgs, _unjs(m['ops']), m['handler'], m['gserial'], maxdig)
+            case, verdict, kinds = run_history(cfgs, _unjs(m['ops']), m['handler'], m['gserial'], maxdig, m.get('strip_ansi', False))
             print('monitor verdict:', verdict)
             b, e = vlib.coq_compare(IMPORTS, CASE_TYPE, 'check_gworld', [case], wd, tag='replay')
             print('model agrees' if not b and not e else 'model DISAGREES %r %r' % (b, e))
